@@ -29,9 +29,9 @@ type methodRef struct {
 func (m methodRef) String() string { return m.Owner + "." + m.Name }
 
 var (
-	stackMethods []methodRef // value + pointer method set of Stack (deduplicated by name; pointer-only ones flagged by Owner)
-	condMethods  []methodRef
-	auxMethods   []methodRef
+	stackMethods = collectMethods(stackage.Stack{}, &stackage.Stack{}, "Stack") // value + pointer method set (pointer-only ones flagged by Owner)
+	condMethods  = collectMethods(stackage.Condition{}, &stackage.Condition{}, "Condition")
+	auxMethods   = collectMethods(stackage.Auxiliary{}, nil, "Auxiliary")
 )
 
 func collectMethods(val any, ptr any, owner string) []methodRef {
@@ -57,11 +57,6 @@ func collectMethods(val any, ptr any, owner string) []methodRef {
 	return out
 }
 
-func init() {
-	stackMethods = collectMethods(stackage.Stack{}, &stackage.Stack{}, "Stack")
-	condMethods = collectMethods(stackage.Condition{}, &stackage.Condition{}, "Condition")
-	auxMethods = collectMethods(stackage.Auxiliary{}, nil, "Auxiliary")
-}
 
 // ---- awkward value catalogue (DESIGN.md 2.2) --------------------------------------
 
